@@ -89,7 +89,7 @@ def check_trace(out, spec, rec, w, tag='', tol_scale=1.0, check_nonfinite=True, 
             Pl = frame.to_local_point(P[:, g])
             Dl = frame.to_local_dir(D[:, g])
             Din = Dl_in[:, g]
-            scale_p = np.maximum(np.max(np.abs(Pl), axis=0), Lk)
+            scale_p = np.maximum(np.maximum(np.max(np.abs(Pl), axis=0), Lk), np.max(np.abs(Pl_prev[:, g]), axis=0))
             # (1) on the prescribed shape
             res = Pl[2] - shape.sag(Pl[0], Pl[1])
             if shape.closed_form:
